@@ -710,9 +710,15 @@ class Program:
         files = sorted(glob.glob(os.path.join(factdir, "*.json")))
         if not files:
             raise RuntimeError("no fact files in " + factdir)
+        texts = {}
         for f in files:
             with open(f) as fh:
-                d = json.load(fh)
+                texts[f] = fh.read()
+        # renamed types / variants / fields / functions are mapped back to the names the rules know (lib/rename.py)
+        from . import rename as _rename
+        parsed, self.renames = _rename.normalise(texts)
+        for f in files:
+            d = parsed[f]
             ck = d["crate"] + (".test" if d.get("test") else "")
             self.crates[ck] = {"cfg": d.get("cfg", []), "file": os.path.basename(f), "bodies": len(d["bodies"])}
             cur_suffix = {}
